@@ -164,6 +164,8 @@ var strSymbols = []string{
 	"a", " ", "\"", "\\", "/", "\n", "\t", "\r", "\b", "\f", "\x00", "\x1f", "\x7f", "<", ">", "&", ";",
 	"\u00e9", "\u0080", "\u07ff", "\u0800", "\u2028", "\u2029", "\ud7ff", "\ue000", "\ufffd", "\uffff", "\U00010000", "\U0001f600", "\U0010ffff",
 	"\x80", "\xc3", "\xed\xa0\x80",
+	// the byte-order mark and the neighbours of the two always-escaped separators
+	"\ufeff", "\u2027", "\u202a", "\u202f",
 }
 
 // keySymbols: the well-formed subset used for member names whose order is compared.
